@@ -1,0 +1,143 @@
+//! Verification hooks (compiled only with `--cfg mmtk_verif`).
+//!
+//! This module re-exports crate-private components and provides thin wrapper
+//! functions so that an external property-based-testing harness can drive them.
+//! Nothing in here changes the behaviour of mmtk-core; with the cfg flag off
+//! the module does not exist.
+#![allow(missing_docs)]
+#![allow(clippy::all)]
+
+pub use crate::util::verif_exports::{
+    FreeList, IntArrayFreeList, RawMemoryFreeList, FAILURE as FREELIST_FAILURE, MAX_HEADS,
+    MAX_UNITS,
+};
+pub use crate::util::treadmill::TreadMill;
+
+/// `util::object_forwarding` (crate-private module, public functions).
+pub mod object_forwarding {
+    pub use crate::util::object_forwarding::*;
+}
+
+/// Groups produced by `revisitable_group_by`: for each group `(key, reported len, items)`.
+/// `take[i]` bounds how many items of group `i` are consumed before moving on
+/// (`usize::MAX` or a missing entry = consume the group completely).
+pub fn group_by_runs<T: Clone, K: PartialEq + Copy>(
+    items: &[T],
+    mut key: impl FnMut(&T) -> K,
+    take: &[usize],
+) -> Vec<(K, usize, Vec<T>)> {
+    use crate::util::rust_util::rev_group::RevisitableGroupByForIterator;
+    let mut out = vec![];
+    for (i, group) in items
+        .iter()
+        .cloned()
+        .revisitable_group_by(|x| key(x))
+        .enumerate()
+    {
+        let k = group.key;
+        let len = group.len;
+        let n = take.get(i).copied().unwrap_or(usize::MAX);
+        let got: Vec<T> = group.take(n).collect();
+        out.push((k, len, got));
+    }
+    out
+}
+
+/// Same as [`group_by_runs`] over the flattened slice-of-slices form used by the mmapper.
+pub fn group_by_runs_nested<T: Copy, K: PartialEq + Copy>(
+    items: &[Vec<T>],
+    mut key: impl FnMut(&T) -> K,
+) -> Vec<(K, usize, Vec<T>)> {
+    use crate::util::rust_util::rev_group::RevisitableGroupByForIterator;
+    let slices: Vec<&[T]> = items.iter().map(|v| v.as_slice()).collect();
+    slices
+        .iter()
+        .copied()
+        .flatten()
+        .copied()
+        .revisitable_group_by(|x| key(x))
+        .map(|g| (g.key, g.len, g.collect::<Vec<_>>()))
+        .collect()
+}
+
+// ------------------------------------------------------------------------
+// Whole-system introspection (read-only)
+// ------------------------------------------------------------------------
+
+use crate::plan::AllocationSemantics;
+use crate::util::Address;
+use crate::vm::VMBinding;
+use crate::MMTK;
+
+/// Name of the space (SFT entry) that owns `addr`; the empty SFT reports `"empty"`.
+pub fn space_name_of(addr: Address) -> &'static str {
+    crate::mmtk::SFT_MAP.get_checked(addr).name()
+}
+
+/// Name of the space the given mutator allocates into for `semantics`.
+pub fn space_name_for_semantics<VM: VMBinding>(
+    mutator: &crate::Mutator<VM>,
+    semantics: AllocationSemantics,
+) -> Option<&'static str> {
+    let selector = mutator.config.allocator_mapping[semantics];
+    mutator
+        .config
+        .space_mapping
+        .iter()
+        .find(|(s, _)| *s == selector)
+        .map(|(_, space)| space.get_name())
+}
+
+/// Was the last (or current) collection a nursery collection?  `None` for
+/// non-generational plans.
+pub fn last_gc_was_nursery<VM: VMBinding>(mmtk: &MMTK<VM>) -> Option<bool> {
+    mmtk.get_plan()
+        .generational()
+        .map(|g| g.is_current_gc_nursery())
+}
+
+/// Per-space snapshot used by the page-accounting, layout and resolution checks.
+#[derive(Debug, Clone)]
+pub struct SpaceInfo {
+    pub name: &'static str,
+    pub start: Address,
+    pub extent: usize,
+    pub contiguous: bool,
+    pub descriptor_raw: usize,
+    pub descriptor_index: usize,
+    pub reserved_pages: usize,
+    pub committed_pages: usize,
+    pub global_specs: Vec<crate::util::metadata::side_metadata::SideMetadataSpec>,
+    pub local_specs: Vec<crate::util::metadata::side_metadata::SideMetadataSpec>,
+}
+
+pub fn space_infos<VM: VMBinding>(mmtk: &MMTK<VM>) -> Vec<SpaceInfo> {
+    let mut out = vec![];
+    mmtk.get_plan().for_each_space(&mut |space| {
+        let common = space.common();
+        let pr = space.get_page_resource();
+        out.push(SpaceInfo {
+            name: common.name,
+            start: common.start,
+            extent: common.extent,
+            contiguous: common.contiguous,
+            descriptor_raw: descriptor_to_raw(common.descriptor),
+            descriptor_index: common.descriptor.get_index(),
+            reserved_pages: pr.reserved_pages(),
+            committed_pages: pr.committed_pages(),
+            global_specs: common.metadata.global.clone(),
+            local_specs: common.metadata.local.clone(),
+        });
+    });
+    out
+}
+
+/// Raw value of the VM map's space descriptor for `addr` (0 = no space).
+pub fn descriptor_raw_for_address(addr: Address) -> usize {
+    descriptor_to_raw(crate::mmtk::VM_MAP.get_descriptor_for_address(addr))
+}
+
+pub fn descriptor_to_raw(d: crate::util::heap::space_descriptor::SpaceDescriptor) -> usize {
+    // SpaceDescriptor is #[repr(transparent)] over usize
+    unsafe { std::mem::transmute::<crate::util::heap::space_descriptor::SpaceDescriptor, usize>(d) }
+}
